@@ -84,6 +84,12 @@ class Facts:
 
     def one_fn(self, **kw):
         r = self.find_fns(**kw)
+        if not r and 'impl_adt' in kw and 'name' in kw and getattr(self, '_breach', None):
+            # the state's own method was folded into the public operation: that function mutates the lock-protected
+            # state directly and is judged as the transition of that name (see rl.breach_wrappers)
+            c = [self.fn(p) for p in self._breach.get(kw['impl_adt'], {}) if (self.fn(p) or {}).get('name') == kw['name']]
+            if len(c) == 1:
+                return c[0]
         if len(r) != 1:
             raise AnchorMissing('expected exactly one fn for %r, found %d' % (kw, len(r)))
         return r[0]
